@@ -3,7 +3,8 @@
 (* Translation validation of the real marked_ptr against abs/MarkedPtr     *)
 (* (C15a).  The harness instantiates marked_ptr<T, M> for every M and, for *)
 (* every generator vector, logs                                            *)
-(*   mp   a = M   b = pointer bit (-1 none, 64 all canonical bits)         *)
+(*   mp   a = M (+ 100 * MaxUpperMarkBits if explicit)  b = pointer bit     *)
+(*        (-1 none, 64 all canonical bits)                                 *)
 (*        r = mark bit (-1 none, 64 all mark bits)  v = flags              *)
 (*        (1: get()==p  2: mark()==mark  4: equality is value equality)    *)
 (*   mpw  a, b, r = bits 0..20, 21..41, 42..63 of the raw word             *)
@@ -13,12 +14,14 @@ EXTENDS MarkedPtr, Sequences, TLC, Json, IOUtils
 
 H == ndJsonDeserialize(IOEnv.TRACE)
 N == Len(H)
-U == 16
+\* a = M + 100 * MaxUpperMarkBits when the third template parameter is given explicitly, M alone for the default (16)
+MOf(i) == H[i].a % 100
+UOf(i) == IF H[i].a \div 100 = 0 THEN 16 ELSE H[i].a \div 100
 Bits(x, base, n) == {base + i : i \in {j \in 0 .. n - 1 : (x \div (2 ^ j)) % 2 = 1}}
 WordOf(i) == Bits(H[i].a, 0, 21) \cup Bits(H[i].b, 21, 21) \cup Bits(H[i].r, 42, 22)
-PtrOf(M, b) == IF b = -1 THEN {} ELSE IF b = 64 THEN PMask(M, U) ELSE {b}
+PtrOf(M, U, b) == IF b = -1 THEN {} ELSE IF b = 64 THEN PMask(M, U) ELSE {b}
 MarkOfVec(M, r) == IF r = -1 THEN {} ELSE IF r = 64 THEN MarkSet(M) ELSE {r}
-OkAt(i) == LET M == H[i].a P == PtrOf(M, H[i].b) Mk == MarkOfVec(M, H[i].r) IN
+OkAt(i) == LET M == MOf(i) U == UOf(i) P == PtrOf(M, U, H[i].b) Mk == MarkOfVec(M, H[i].r) IN
            /\ H[i + 1].e = "mpw"
            /\ H[i].v = 7
            /\ Canonical(M, U, P)
